@@ -54,6 +54,15 @@ def bounded_cmd(tier, seed):
             if got != want and len(failures) < 3:
                 failures.append({"id": f"strip_carets:{cmd!r}", "function": "multidecoder.decoders.shell.strip_carets", "obligation": "post/cmd-exe-rules",
                                  "case": {"strip_carets": cmd.hex()}, "observed": f"strip_carets({cmd!r}) = {got!r}, cmd.exe reference = {want!r}"})
+    quoted = [b'"d:\\tools\\cmd" /c whoami', b"'run cmd.exe' /c dir", b'"cmd" /c x', b'"C:\\WINDOWS\\system32\\cmd.exe" /c "a^b"']
+    for data in quoted:
+        n += 1
+        for h in shell.find_cmd_strings(data):
+            text = data[h.start : h.end]
+            want_label = "unescape.shell.carets" if caret_from(text, 0, False) != text else ""
+            if h.obfuscation != want_label and len(failures) < 6:
+                failures.append({"id": "find_cmd_strings: label is not 'caret-unescaped iff de-escaping changed the span'", "function": "multidecoder.decoders.shell.find_cmd_strings", "obligation": "each/label-iff-de-escaping-changed-the-span",
+                                 "case": {"find_cmd": data.hex(), "label": True}, "observed": f"{data!r}: label {h.obfuscation!r}, expected {want_label!r}"})
     tails = [b" /c a) bcd efg", b" /c (a) b) c", b" /c ((x)", b" a^)b) c", b" /c \"a)\" b", b" x)", b")", b" (a))(b) z", b" /c dir", b" /c a\x00b) c"]
     for t in tails + [bytes(rng.choice(b"ab() ^\"") for _ in range(rng.randint(0, 12))) for _ in range(300 if tier == "quick" else 5000)]:
         data = b"x cmd" + t
@@ -67,6 +76,11 @@ def bounded_cmd(tier, seed):
         ms = list(regex.finditer(shell.CMD_RE, data))
         for h, m in zip(hits, ms):
             want_end = cmd_reference(data, m.start(), m.group())
+            text = data[h.start : h.end]
+            want_label = "unescape.shell.carets" if caret_from(text, 0, False) != text else ""
+            if h.obfuscation != want_label and len(failures) < 6:
+                failures.append({"id": "find_cmd_strings: label is not 'caret-unescaped iff de-escaping changed the span'", "function": "multidecoder.decoders.shell.find_cmd_strings", "obligation": "each/label-iff-de-escaping-changed-the-span",
+                                 "case": {"find_cmd": data.hex(), "label": True}, "observed": f"{data!r}: label {h.obfuscation!r}, expected {want_label!r}"})
             if (h.start, h.end) != (m.start(), want_end) and len(failures) < 6:
                 failures.append({"id": "find_cmd_strings: span does not end at the first unbalanced )", "function": "multidecoder.decoders.shell.find_cmd_strings", "obligation": "inv/L2/not-past-the-cut",
                                  "case": {"find_cmd": data.hex()}, "observed": f"{data!r}: span [{h.start},{h.end}) but the first unbalanced ')' ends it at {want_end}; value {h.value!r}"})
@@ -141,6 +155,9 @@ def replay(case):
 
         hits = shell.find_cmd_strings(data)
         for h, m in zip(hits, regex.finditer(shell.CMD_RE, data)):
+            text = data[h.start : h.end]
+            if case.get("label") and h.obfuscation != ("unescape.shell.carets" if caret_from(text, 0, False) != text else ""):
+                return False, f"label {h.obfuscation!r} for span text {text!r}"
             we = cmd_reference(data, m.start(), m.group())
             if h.end != we:
                 return False, f"span ends at {h.end}, the first unbalanced ')' is at {we}"
